@@ -447,7 +447,12 @@ impl Scenario for C18 {
                 use dep3::lossy::PatchHeader as PH;
                 use dep3::{Origin as O, OriginCategory as OC};
                 let cat = [None, Some(OC::Backport), Some(OC::Vendor), Some(OC::Upstream), Some(OC::Other)][sel % 5];
-                let origin = if (sel / 5) % 2 == 0 { O::Commit(a[2].clone()) } else { O::Other(format!("https://{}", a[2])) };
+                let origin = match (sel / 5) % 5 {
+                    0 | 1 => O::Commit(a[2].clone()),
+                    // an empty commit id is representable and prints as "commit:"
+                    2 => O::Commit(String::new()),
+                    _ => O::Other(format!("https://{}", a[2])),
+                };
                 let pre = format!("{mode}+category={}", cat.map(|x| x.to_string()).unwrap_or("none".into()));
                 let val = PH { origin: Some((cat, origin)), forwarded: None, author: None, reviewed_by: None, bug_debian: None, last_update: None, applied_upstream: None, bug: None, description: None };
                 match mode {
